@@ -9,6 +9,7 @@ import (
 	"runtime"
 	"runtime/debug"
 	"sort"
+	"sync"
 	"testing"
 )
 
@@ -28,6 +29,26 @@ func TestVReplay(t *testing.T) {
 		return
 	}
 	vLoad()
+	if os.Getenv("VERIF_RACE") != "" {
+		// C20 replays: the same entry points on two goroutines under the race detector
+		fn, ok := vHarnessTable[os.Getenv("VERIF_HARNESS")]
+		if !ok {
+			fmt.Println("VRESULT unknown-harness")
+			return
+		}
+		var wg sync.WaitGroup
+		for g := 0; g < 2; g++ {
+			wg.Add(1)
+			go func() {
+				defer wg.Done()
+				defer func() { recover() }()
+				fn()
+			}()
+		}
+		wg.Wait()
+		fmt.Println("VRESULT completed")
+		return
+	}
 	vRunOne(os.Getenv("VERIF_HARNESS"))
 }
 
